@@ -235,3 +235,60 @@ declare_class(
     dict(num_rungs=Int, _metric=Lit("loss"), _mode=Enum("min", "max"), _resource_attr=Lit("epoch"), _max_t=Int, _rungs=List(Obj("PRung")), _running=RUNNING_T, current_max_t=Int, current_rung_idx=Int),
     inv="pasha_inv",
 )
+
+# -- bracket manager (hyperband.py) -----------------------------------------------------------------
+
+HB_MAIN = "syne_tune.optimizer.schedulers.hyperband"
+
+
+def mgr_inv(mg):
+    """HyperbandBracketManager: ``rung_levels`` strictly increasing below max_t; rung system s holds the
+    levels rung_levels[s:] (top-down); one system when shared, one per bracket otherwise"""
+    L = mg.rung_levels
+    k = len(L)
+    m = len(mg._rung_systems)
+    return {
+        "levels-increasing": forall(range(0, k - 1), lambda i: L[i] < L[i + 1]),
+        "levels-positive": forall(range(0, k), lambda i: L[i] >= 1),
+        "levels-below-max": (L[k - 1] < mg._max_t) if k > 0 else True,
+        "brackets": 1 <= mg.num_brackets and mg.num_brackets <= k + 1,
+        "systems": m == (mg.num_brackets if mg._rung_system_per_bracket else 1),
+        "system-levels": forall(
+            range(0, m),
+            lambda s: len(mg._rung_systems[s]._rungs) == k - s
+            and mg._rung_systems[s]._max_t == mg._max_t
+            and forall(range(0, k - s), lambda i: mg._rung_systems[s]._rungs[i].level == L[k - 1 - i]),
+        ),
+        "task-info": True,
+    }
+
+
+declare_class(
+    "StoppingManager",
+    HB_MAIN + ":HyperbandBracketManager",
+    dict(
+        _scheduler_type=Lit("stopping"),
+        _resource_attr=Lit("epoch"),
+        _max_t=Int,
+        rung_levels=List(Int),
+        _rung_system_per_bracket=Bool,
+        _task_info=Map(Str, Int),
+        num_brackets=Int,
+        _rung_systems=List(Obj("StoppingRungSystem")),
+    ),
+    inv="mgr_inv",
+)
+
+
+def mgr_shapes(max_levels, entries=None):
+    """consistent concrete shapes of a bracket manager: k levels, shared (1 system) or per-bracket (m systems)"""
+    out = []
+    for k in range(1, max_levels + 1):
+        for m in range(1, k + 2):
+            sh = {"self.rung_levels": k, "self._rung_systems": m}
+            for s in range(m):
+                sh["self._rung_systems[%d]._rungs" % s] = max(k - s, 0)
+            if entries is not None:
+                sh["*"] = entries
+            out.append(sh)
+    return out
